@@ -272,6 +272,16 @@ def make_body(sched: Sched, tid: int, ep: Dict[str, Any]):
                     cls = CbSocket if ep["cb"] else ts_socket.ThreadSocket
                     if ep["cb"]:
                         CbSocket.sink = staticmethod(sink)
+                    if ep["cb"] == "storage":
+                        # the package's own storing callback socket
+                        class StoreSocket(ts_socket.StorageThreadSocket):
+                            def recv_callback(self_, msg):
+                                sink("cb", self_.key, msg)
+                                super().recv_callback(msg)
+
+                            def conn_lost_callback(self_):
+                                sink("lost", self_.key, None)
+                        cls = StoreSocket
                     if ep["cb"] == "answer":
                         # the ping-pong pattern: the callback (running in the SENDER's thread) answers through its own socket;
                         # that nested send is logged as a call of pseudo-thread tid + 2, which owns the same endpoint key
@@ -295,7 +305,10 @@ def make_body(sched: Sched, tid: int, ep: Dict[str, Any]):
                         d_ = os.path.join(os.environ.get("VERIF_COMMLOG_DIR") or tempfile.gettempdir(), f"commlog_{os.getpid()}")
                         os.makedirs(d_, exist_ok=True)
                         kw_["log_config"] = LogConfig(comm_log_dir=d_)
-                    sock = cls(ep["name"], ep["remote"], socket_id=ep["id"], use_callbacks=bool(ep["cb"]), **kw_)
+                    if ep["cb"] == "storage":
+                        sock = cls(ep["name"], ep["remote"], socket_id=ep["id"], **kw_)
+                    else:
+                        sock = cls(ep["name"], ep["remote"], socket_id=ep["id"], use_callbacks=bool(ep["cb"]), **kw_)
                     if not sched.use_global:
                         sock._SOCKET_HUB = sched.hub
                 elif op == "connectp":
@@ -345,6 +358,9 @@ def make_body(sched: Sched, tid: int, ep: Dict[str, Any]):
                         res = "<empty>"
                 elif op == "disconnect":
                     sched.hub.disconnect(sock)
+                elif op == "stored":
+                    # what a storing socket holds (its public accessor if it has one)
+                    res = "".join(str(m_) + "|" for m_ in list(getattr(sock, "storage", None) or getattr(sock, "_storage")))
             except ConnectionError:
                 res = "<connerr>"
             sched.log(t=tid, ev="ret", op=op, res=res, n=n)
